@@ -28,7 +28,7 @@ func (Prop) Assumptions() []string {
 }
 
 func (Prop) Plan(tier string) []lib.Workload {
-	n := 400
+	n := 300
 	if tier == "thorough" {
 		n = 30000
 	}
